@@ -90,6 +90,129 @@ type ClientCall struct {
 	Fn        string            `json:"fn"`
 	Args      []json.RawMessage `json:"args"` // after the server argument
 	ThenServe bool              `json:"then_serve"`
+	// the request is not taken from the builder New<Op>Request<Suffix> but from what the method <Op><Suffix> of the generated
+	// Client hands to its HTTP doer (client made by NewClientWithResponses with two request editors, one more passed to the call)
+	ViaMethod bool `json:"via_method,omitempty"`
+}
+
+// Doer is what a generated client sends its requests through.
+type Doer interface {
+	Do(*http.Request) (*http.Response, error)
+}
+
+// NewClientFunc is the signature of the LabNewClient function of every laboratory package with a generated client.
+type NewClientFunc = func(server string, doer Doer, editors []func(context.Context, *http.Request) error) (any, error)
+
+// MethodCall: a method of the generated ClientWithResponses, end to end against a canned reply.
+type MethodCall struct {
+	Fn            string            `json:"fn"`   // e.g. GetThingWithResponse
+	Args          []json.RawMessage `json:"args"` // after ctx, before the variadic editors
+	Server        string            `json:"server"`
+	ClientEditors int               `json:"client_editors"`
+	CallEditors   int               `json:"call_editors"`
+	Status        int               `json:"status"`
+	ContentType   string            `json:"content_type"`
+	Body          string            `json:"body"`
+}
+
+type cannedDoer struct {
+	t      *Trace
+	wire   *Wire
+	status int
+	ct     string
+	body   string
+	calls  int
+	req    *http.Request
+}
+
+func (d *cannedDoer) Do(req *http.Request) (*http.Response, error) {
+	d.calls++
+	d.req = req
+	var body []byte
+	if req.Body != nil {
+		body, _ = io.ReadAll(req.Body)
+	}
+	d.wire = &Wire{Method: req.Method, Path: req.URL.EscapedPath(), RawQuery: req.URL.RawQuery, Header: req.Header.Clone(), Body: string(body)}
+	d.t.Add("doer", req.Method, map[string]any{"host": req.URL.Host, "has_context": req.Context() != nil})
+	hr := &http.Response{StatusCode: d.status, Status: fmt.Sprintf("%d x", d.status), Header: http.Header{}, Body: io.NopCloser(strings.NewReader(d.body)), ContentLength: int64(len(d.body)), Request: req}
+	if d.ct != "" {
+		hr.Header.Set("Content-Type", d.ct)
+	}
+	hr.Header.Set("Content-Length", fmt.Sprint(len(d.body)))
+	return hr, nil
+}
+
+func labEditors(t *Trace, prefix string, n int) []func(context.Context, *http.Request) error {
+	var out []func(context.Context, *http.Request) error
+	for i := 0; i < n; i++ {
+		name := fmt.Sprintf("%s%d", prefix, i)
+		out = append(out, func(ctx context.Context, req *http.Request) error {
+			t.Add("editor", name, map[string]any{"seen": req.Header.Values("X-Editor")})
+			req.Header.Add("X-Editor", name)
+			return nil
+		})
+	}
+	return out
+}
+
+// callMethod invokes the named method of recv: ctx, the JSON arguments, then the editors as the variadic tail.
+func callMethod(recv reflect.Value, name string, args []json.RawMessage, editors []func(context.Context, *http.Request) error) ([]reflect.Value, error) {
+	mv := recv.MethodByName(name)
+	if !mv.IsValid() {
+		return nil, fmt.Errorf("no such method: %s", name)
+	}
+	mt := mv.Type()
+	if !mt.IsVariadic() || mt.NumIn() != len(args)+2 {
+		return nil, fmt.Errorf("method %s takes %d arguments (variadic %v), %d given after ctx", name, mt.NumIn(), mt.IsVariadic(), len(args))
+	}
+	readerT := reflect.TypeOf((*io.Reader)(nil)).Elem()
+	in := []reflect.Value{reflect.ValueOf(context.Background())}
+	for i, a := range args {
+		pt := mt.In(i + 1)
+		if pt == readerT {
+			var s string
+			if err := json.Unmarshal(a, &s); err != nil {
+				return nil, fmt.Errorf("argument %d: %v", i, err)
+			}
+			in = append(in, reflect.ValueOf(strings.NewReader(s)))
+			continue
+		}
+		v := reflect.New(pt)
+		if err := json.Unmarshal(a, v.Interface()); err != nil {
+			return nil, fmt.Errorf("argument %d (%s): %v", i, pt, err)
+		}
+		in = append(in, v.Elem())
+	}
+	et := mt.In(mt.NumIn() - 1).Elem()
+	for _, e := range editors {
+		in = append(in, reflect.ValueOf(e).Convert(et))
+	}
+	return mv.Call(in), nil
+}
+
+// exposeResponse: the fields of a generated <Op>Response that are set.
+func exposeResponse(v reflect.Value) map[string]json.RawMessage {
+	out := map[string]json.RawMessage{}
+	for i := 0; i < v.NumField(); i++ {
+		f := v.Field(i)
+		name := v.Type().Field(i).Name
+		switch f.Kind() {
+		case reflect.Ptr, reflect.Slice, reflect.Map, reflect.Interface:
+			if f.IsNil() {
+				continue
+			}
+		}
+		if name == "HTTPResponse" {
+			out["HTTPResponse.StatusCode"] = Encode(f.Interface().(*http.Response).StatusCode)
+			continue
+		}
+		if name == "Body" {
+			out[name] = Encode(string(f.Bytes()))
+			continue
+		}
+		out[name] = Encode(f.Interface())
+	}
+	return out
 }
 
 type ParseCall struct {
@@ -130,6 +253,7 @@ type Scenario struct {
 	Parse   *ParseCall  `json:"parse,omitempty"`
 	Round   *RoundTrip  `json:"round,omitempty"`
 	Union   *UnionCall  `json:"union,omitempty"`
+	Call    *MethodCall `json:"call,omitempty"`
 	Swagger *struct{}   `json:"swagger,omitempty"` // call GetSwagger(), validate, return the document with references internalised
 }
 
@@ -211,22 +335,73 @@ func run(pkgs map[string]Package, sc *Scenario) (res Result) {
 			res.Err = "no such function: " + sc.Client.Fn
 			return
 		}
-		args := append([]json.RawMessage{Encode("http://lab" + sc.Opts.BaseURL)}, sc.Client.Args...)
-		outs, err := Call(fn, args)
-		if err != nil {
-			res.Err = "call: " + err.Error()
-			return
-		}
-		if e, _ := outs[len(outs)-1].Interface().(error); e != nil {
-			res.Err = "builder error: " + e.Error()
-			return
-		}
-		hreq := outs[0].Interface().(*http.Request)
+		var hreq *http.Request
 		var body []byte
-		if hreq.Body != nil {
-			body, _ = io.ReadAll(hreq.Body)
+		if sc.Client.ViaMethod {
+			mk, ok := p.Funcs["LabNewClient"].(NewClientFunc)
+			if !ok {
+				res.Err = "package has no generated client"
+				return
+			}
+			t := &Trace{}
+			d := &cannedDoer{t: t, status: 204}
+			cl, err := mk("http://lab"+sc.Opts.BaseURL, d, labEditors(t, "client", 2))
+			if err != nil {
+				res.Err = "NewClientWithResponses: " + err.Error()
+				return
+			}
+			ci := reflect.ValueOf(cl).Elem().FieldByName("ClientInterface")
+			name := strings.TrimPrefix(sc.Client.Fn, "New")
+			if i := strings.LastIndex(name, "Request"); i >= 0 {
+				name = name[:i] + name[i+len("Request"):]
+			}
+			outs, err := callMethod(ci, name, sc.Client.Args, labEditors(t, "call", 1))
+			if err != nil {
+				res.Err = "call: " + err.Error()
+				return
+			}
+			if e, _ := outs[1].Interface().(error); e != nil {
+				res.Err = "builder error: " + e.Error()
+				return
+			}
+			if hr, _ := outs[0].Interface().(*http.Response); hr == nil || hr.StatusCode != 204 || d.calls != 1 {
+				res.Err = fmt.Sprintf("client method did not hand back the reply of its single exchange (doer calls %d)", d.calls)
+				return
+			}
+			var names []string
+			for _, e := range t.Events {
+				names = append(names, e.Kind+":"+e.Name)
+			}
+			if got := strings.Join(names, " "); got != "editor:client0 editor:client1 editor:call0 doer:"+d.wire.Method {
+				res.Err = "client method: request editors and exchange ran as [" + got + "]"
+				return
+			}
+			if got := strings.Join(d.wire.Header["X-Editor"], ","); got != "client0,client1,call0" {
+				res.Err = "client method: the request sent does not carry what the editors added: " + got
+				return
+			}
+			delete(d.wire.Header, "X-Editor")
+			res.Wire = d.wire
+			body = []byte(d.wire.Body)
+			hreq = d.req
+			hreq.Header.Del("X-Editor")
+		} else {
+			args := append([]json.RawMessage{Encode("http://lab" + sc.Opts.BaseURL)}, sc.Client.Args...)
+			outs, err := Call(fn, args)
+			if err != nil {
+				res.Err = "call: " + err.Error()
+				return
+			}
+			if e, _ := outs[len(outs)-1].Interface().(error); e != nil {
+				res.Err = "builder error: " + e.Error()
+				return
+			}
+			hreq = outs[0].Interface().(*http.Request)
+			if hreq.Body != nil {
+				body, _ = io.ReadAll(hreq.Body)
+			}
+			res.Wire = &Wire{Method: hreq.Method, Path: hreq.URL.EscapedPath(), RawQuery: hreq.URL.RawQuery, Header: hreq.Header, Body: string(body)}
 		}
-		res.Wire = &Wire{Method: hreq.Method, Path: hreq.URL.EscapedPath(), RawQuery: hreq.URL.RawQuery, Header: hreq.Header, Body: string(body)}
 		if sc.Client.ThenServe {
 			req := httptest.NewRequest(hreq.Method, hreq.URL.RequestURI(), bytes.NewReader(body))
 			for k, vs := range hreq.Header {
@@ -236,6 +411,31 @@ func run(pkgs map[string]Package, sc *Scenario) (res Result) {
 			}
 			serve(p, sc, req, &res)
 		}
+	case sc.Call != nil:
+		mk, ok := p.Funcs["LabNewClient"].(NewClientFunc)
+		if !ok {
+			res.Err = "package has no generated client"
+			return
+		}
+		t := &Trace{}
+		d := &cannedDoer{t: t, status: sc.Call.Status, ct: sc.Call.ContentType, body: sc.Call.Body}
+		cl, err := mk(sc.Call.Server, d, labEditors(t, "client", sc.Call.ClientEditors))
+		if err != nil {
+			res.Err = "NewClientWithResponses: " + err.Error()
+			return
+		}
+		outs, err := callMethod(reflect.ValueOf(cl), sc.Call.Fn, sc.Call.Args, labEditors(t, "call", sc.Call.CallEditors))
+		res.Trace = t.Events
+		res.Wire = d.wire
+		if err != nil {
+			res.Err = "call: " + err.Error()
+			return
+		}
+		if e, _ := outs[1].Interface().(error); e != nil {
+			res.Err = "method error: " + e.Error()
+			return
+		}
+		res.Parsed = exposeResponse(outs[0].Elem())
 	case sc.Parse != nil:
 		fn, ok := p.Funcs[sc.Parse.Fn]
 		if !ok {
@@ -269,27 +469,7 @@ func run(pkgs map[string]Package, sc *Scenario) (res Result) {
 				ContentLength: int64(len(sc.Parse.ThenBody))}
 			reflect.ValueOf(fn).Call([]reflect.Value{reflect.ValueOf(hr2)})
 		}
-		res.Parsed = map[string]json.RawMessage{}
-		v := outs[0].Elem()
-		for i := 0; i < v.NumField(); i++ {
-			f := v.Field(i)
-			name := v.Type().Field(i).Name
-			switch f.Kind() {
-			case reflect.Ptr, reflect.Slice, reflect.Map, reflect.Interface:
-				if f.IsNil() {
-					continue
-				}
-			}
-			if name == "HTTPResponse" {
-				res.Parsed["HTTPResponse.StatusCode"] = Encode(f.Interface().(*http.Response).StatusCode)
-				continue
-			}
-			if name == "Body" {
-				res.Parsed[name] = Encode(string(f.Bytes()))
-				continue
-			}
-			res.Parsed[name] = Encode(f.Interface())
-		}
+		res.Parsed = exposeResponse(outs[0].Elem())
 	case sc.Round != nil:
 		t, ok := p.Types[sc.Round.Type]
 		if !ok {
